@@ -49,6 +49,8 @@ package transports
 //@   assigns nothing
 //@ func (r Registration) TransportParams() any
 //@   assigns nothing
+//@ func (r Registration) SharedSecret() []byte
+//@   assigns nothing
 
 // ---------------- C01: seeded destination port ----------------
 // Published algorithm (every transport, station and client): the port is min + a draw in [0, max-min) taken from the
